@@ -58,6 +58,9 @@ def c07_molecules(tier):
         out.append(Mol([a.__class__(**a.__dict__) for a in atoms], list(bonds)))
         bonds2 = [(i + 1, 0, 1 if i % 2 else 2) for i in range(k)] + [(1, 2, 4)]
         out.append(Mol([a.__class__(**a.__dict__) for a in atoms], bonds2))
+    # a centre with 12 equal bonds: ENDPTS lists with 9, 10, 11, 12 endpoints (two-digit counts)
+    atoms = [Atom("Zr", 4, 0, 0, (0.0, 0.0, 0.0))] + [Atom("C", 0, 0, 0, (float(i), 2.0, 0.0)) for i in range(12)]
+    out.append(Mol(atoms, [(0, i + 1, 1) for i in range(12)]))
     return out
 
 
@@ -141,6 +144,20 @@ def c07_shard(job):
                                       "mol": _mol_json(M), "label": label, "summary": msg}))
 
     run("default", sp0)
+    # the caller owns the returned graph: scribble on it and read the same text again
+    try:
+        from .c14_workload import scribble
+
+        scribble(read(base_text))
+        msg = MF.compare_graph(read(base_text), M)
+        res["exec"] += 1
+        if msg:
+            res["vios"].append(("C07|aliased-result", {"kind": "molfile-vs-mol", "n": len(M.atoms), "molfile": base_text, "mol": _mol_json(M),
+                                                      "reread_after_scribble": True,
+                                                      "summary": f"second read of the same text after the caller modified the first result: {msg}"}))
+    except Exception as ex:
+        res["vios"].append(("C07|aliased-result|exc", {"kind": "molfile-vs-mol", "n": len(M.atoms), "molfile": base_text, "mol": _mol_json(M),
+                                                      "summary": f"second read raised {ex!r}"}))
     sdevs = list(MF.v3_structure_deviations(M, tier))
     for label, kw in sdevs:
         sp = MF.with_(sp0, **kw)
@@ -229,6 +246,10 @@ def run_c07(tier):
 
 def replay_molfile_vs_mol(prop, rec):
     M = mol_from_json(rec["mol"])
+    if rec.get("reread_after_scribble"):
+        from .c14_workload import scribble
+
+        scribble(read(rec["molfile"]))
     try:
         g = read(rec["molfile"])
     except Exception as ex:
@@ -384,6 +405,20 @@ def c08_shard(job):
 
     if part == 0:
         run("default", sp0)
+        try:
+            from .c14_workload import scribble
+
+            t2 = MF.v2000_text(M, sp0)
+            scribble(read(t2))
+            msg = MF.compare_graph(read(t2), M)
+            res["exec"] += 1
+            if msg:
+                res["vios"].append(("C08|aliased-result", {"kind": "molfile-vs-mol", "n": len(M.atoms), "molfile": t2, "mol": _mol_json(M),
+                                                          "reread_after_scribble": True,
+                                                          "summary": f"[{name}] second read of the same V2000 text after the caller modified the first result: {msg}"}))
+        except Exception as ex:
+            res["vios"].append(("C08|aliased-result|exc", {"kind": "molfile-vs-mol", "n": len(M.atoms), "molfile": MF.v2000_text(M, sp0),
+                                                          "mol": _mol_json(M), "summary": f"second read raised {ex!r}"}))
     devs = list(v2_deviations(name, M, tier))
     for di, (label, kw) in enumerate(devs):
         if di % nparts == part:
